@@ -144,15 +144,20 @@ class Chain:
             return
         self.protos = [evogen.proto_json(v, True) for v in self.versions]
         newest = self.protos[-1]
-        main = vlib.cpp_main_versions("evo", [("P", sum(1 for s in newest if s["stream"]))], [f"v{j}" for j in range(len(self.versions) - 1)])
+        main = vlib.cpp_main_versions("evo", [("P", sum(1 for s in newest if s["stream"]))], [f"v{j}" for j in range(len(self.versions) - 1)],
+                                      out_cpp=os.path.join(self.root, "out_cpp"))
         self.exe = os.path.join(self.root, "xlate")
         ok, log = vlib.compile_cpp(os.path.join(self.root, "out_cpp"), main, self.exe, ndjson=False)
         if not ok:
             self.err, self.stage = "C++ compile failed: " + log[-3000:], "compile"
 
-    def run_cpp(self, target, inp, outp, bufs):
+    def run_cpp(self, target, inp, outp, bufs, stale=None):
+        env = dict(os.environ)
+        env.pop("VF_STALE_FILE", None)
+        if stale:
+            env["VF_STALE_FILE"] = stale
         try:
-            p = subprocess.run([self.exe, "P", target, inp, outp] + [str(b) for b in bufs], stdout=subprocess.PIPE, stderr=subprocess.PIPE, timeout=60)
+            p = subprocess.run([self.exe, "P", target, inp, outp] + [str(b) for b in bufs], stdout=subprocess.PIPE, stderr=subprocess.PIPE, timeout=60, env=env)
             return p.returncode, p.stderr.decode(errors="replace")[-1500:]
         except subprocess.TimeoutExpired:
             return -9, "TIMEOUT"
@@ -356,6 +361,16 @@ def exercise(report, lab, lean, seed, n_sets):
             want, status = _conv_steps(lean, True, oldp, newest, vals)
             rc, err = lab.run_cpp("cur", inp, outp, bufs)
             _judge(report, lab, lean, "read", old_i, newest, lab.schemas[last], vals, want, status, rc, err, outp, seed, changed)
+            # the same stream read into values and vectors that have just been filled from a stream of the newest version (other values): a field
+            # the old version does not have must come out as its zero value, not as what the destination held
+            svals = g.gen_step_vals(newest)
+            sparts = [g.gen_partition(len(v[1])) if v[0] == "stream" else [] for v in svals]
+            senc = lean.ask({"op": "enc_proto", "proto": newest, "parts": sparts, "vals": svals, "schema": lab.schemas[last]})
+            sfile, outs = os.path.join(lab.root, f"r{old_i}_{k}.stale"), os.path.join(lab.root, f"r{old_i}_{k}.out2")
+            open(sfile, "wb").write(bytes.fromhex(senc["hex"]))
+            rc, err = lab.run_cpp("cur", inp, outs, bufs, stale=sfile)
+            report.count("runs.read.into-used-destinations")
+            _judge(report, lab, lean, "read", old_i, newest, lab.schemas[last], vals, want, status, rc, err, outs, seed, changed)
             # (b) write: newest-version values written for version old_i
             vals = _with_numeric_text(g, newest, oldp, _alternate(g, newest, g.gen_step_vals(newest)))
             parts = [g.gen_partition(len(v[1])) if v[0] == "stream" else [] for v in vals]
